@@ -13,7 +13,7 @@ for d in sorted(glob.glob('/verif/seeded/C*-*'), key=lambda x: (x.split('/')[-1]
     rows.append("| %s | %s | %s | %s |" % (os.path.basename(d), title[:170].replace('|', '/'),
                 ", ".join(f.replace('frost-', '').replace('/src/', '/') for f in files), "; ".join(m.get('detected_by', [])).replace('|', '/')))
 n = len(rows)
-missed = len([r for r in rows if 'initially missed' in r or 'missed before' in r or 'missed by C' in r or 'no-failing-input-found)' in r])
+missed = len([r for r in rows if 'initially missed' in r or 'missed before' in r or 'missed by C' in r])
 p = '/verif/DESIGN.md'
 s = open(p).read()
 head = "| seeded change | what it changes | files | detected by |\n|---|---|---|---|\n"
